@@ -164,7 +164,9 @@ def check_pid_wrapper(chk, prog, sim):
     fn = prog.find_fn(name="update", self_name="PIDWrapper", trait="Updatable")
     chk.analysed(fn["pretty"])
     ok = True
-    sim.inline_filter = lambda f: not (f["name"] == "update" and is_adt(f.get("impl_self") or {}, "CommandPID"))
+    # every method of the CommandPID is kept opaque (logged effect): besides `update` the wrapper must not touch the controller at all - the
+    # command reaches it through the command getter it follows, exactly as it would reach a stand-alone CommandPID
+    sim.inline_filter = lambda f: not is_adt(f.get("impl_self") or {}, "CommandPID")
     try:
         for has_s, has_c in itertools.product((False, True), repeat=2):
             leaves, dh = run_wrapper(sim, prog, fn, [dict(state=has_s, cmd=has_c)], None)
@@ -184,6 +186,11 @@ def check_pid_wrapper(chk, prog, sim):
                     if e[0] == "call":
                         ev.append(e[2].split("::")[-1] + "@" + e[1])
                 pid_upd = [x for x in ev if x.startswith("update@*self.pid")]
+                pid_other = [x for x in ev if "@*self.pid" in x and not x.startswith("update@") and not x.split("@")[0] in ("borrow", "borrow_mut", "clone")]
+                if pid_other:
+                    chk.violation("C20.P", key + ":update:pid-touched:" + case, "PIDWrapper::update with %s calls %s on its CommandPID: a stand-alone CommandPID fed the same times, states and commands receives nothing but update(), "
+                                  "so the wrapper's output differs from it (e.g. a reset or set that the stand-alone controller never sees)" % (case, [x.split("@")[0] for x in pid_other]), fn=fn["pretty"], file=loc(fn["span"]))
+                    ok = False
                 inner_upd = [x for x in ev if x.startswith("update@dev") or x.startswith("update@self.inner") or ("update@" in x and "pid" not in x)]
                 sees = has_s or has_c
                 problems = []
